@@ -19,10 +19,13 @@ if TYPE_CHECKING:
 
 
 class _Processor:
-    __slots__ = ("_conn", "_processed")
+    __slots__ = ("_conn", "_processed", "actor_run")
 
     def __init__(self, _conn: Connection) -> None:
         self._conn = _conn
+        # every processor has its own wrapper, so that signals go to the middleware of its own
+        # connection, no matter how many other processors (connections) exist in the process
+        self.actor_run = middleware_wrapper(self._actor_run, name="actor_run")
         self.actor_run._repid_signal_emitter = self._conn.middleware.emit_signal
         self._processed = 0
 
@@ -36,8 +39,7 @@ class _Processor:
         return initial_payload
 
     @staticmethod
-    @middleware_wrapper
-    async def actor_run(
+    async def _actor_run(
         actor: ActorData,
         key: RoutingKeyT,
         parameters: ParametersT,
